@@ -349,7 +349,11 @@ class Context:
                 num = self.eval_const(typ.size)
             else:
                 num = int(typ.size)
-            assert isinstance(num, int)
+            if not isinstance(num, int) or isinstance(num, bool) or num < 0:
+                raise SemanticError(
+                    f"Array size must be a non negative integer, not {num}",
+                    getattr(typ.size, "loc", None),
+                )
             return num * self.size_of(typ.element_type)
         elif isinstance(typ, ast.PointerType):
             return self.pointerSize
